@@ -25,6 +25,14 @@ def ewData (a : Matrix α) (b : Matrix β) (op : α → β → γ) : M (Array γ
       pure (op left right)
     pure l.toArray
 
+/-- the guard prefix of `elementwise_operation` / `elementwise_operation_consume_self` on headers
+only (usable for extents no allocation can reach): conformability first, then the capacity check
+for `n` outputs of `esOut` bytes -/
+def ewDecision (esOut : Nat) (a b : Hdr) (n : Nat) : M (Except Error Nat) := do
+  let ok ← Gen.Matrix.is_elementwise_operation_conformable a b
+  if !ok then pure (.error .shapeNotConformable)
+  else Gen.Matrix.check_size esOut n
+
 /-- `elementwise_operation` and `elementwise_operation_consume_self` -/
 def Matrix.elementwiseOperation (esOut : Nat) (a : Matrix α) (b : Matrix β) (op : α → β → γ) :
     M (Except Error (Matrix γ)) := do
